@@ -102,8 +102,10 @@ class G:
         if self.chance(0.7):
             return self.word()
         n = self.r.randint(1, 12)
-        alphabet = "abcXYZ019 ,=:/-_.%&;éß中\U0001f3b5"
+        alphabet = "abcXYZ019 ,=:/-_.%&;éß中\U0001f3b5\\"
         s = "".join(self.pick(alphabet) for _ in range(n))
+        if self.chance(0.15):
+            s += self.pick(["\\", "\\\\", "dir\\"])       # RFC 8216 has no escapes: a backslash, also right before the closing quote, is an ordinary character
         return s if s.strip() else "w" + s
 
     def uri(self):
@@ -195,7 +197,7 @@ KF_ATOM = {"identity": "identity", "com.apple.streamingkeydelivery": "fairplay",
 def gen_key(g, fmt_pool=KEYFORMATS, allow_sample=True):
     fmt = g.pick(fmt_pool)
     method = "AES-128" if (not allow_sample or g.chance(0.7)) else "SAMPLE-AES"
-    k = {"method": method, "uri": g.pick(["k1", "https://k.example/key?id=7", "k,2=a", "schüssel"]) + str(g.small(5)),
+    k = {"method": method, "uri": g.pick(["k1", "https://k.example/key?id=7", "k,2=a", "schüssel", "file:///C:\\keys\\"]) + str(g.small(5)) + ("\\" if g.chance(0.06) else ""),
          "iv": g.iv() if g.chance(0.4) else None, "format": fmt, "versions": None}
     if g.chance(0.25):
         k["versions"] = [g.pick([1, 2, 3, 5, 255, 0]) for _ in range(g.r.randint(1, 4))]
@@ -203,6 +205,11 @@ def gen_key(g, fmt_pool=KEYFORMATS, allow_sample=True):
             k["versions"] = [0] * g.r.randint(1, 9)
         elif g.chance(0.1):
             k["versions"] = [g.pick([1, 255, 0, 7]) for _ in range(9)]
+    elif g.chance(0.08):
+        # the default list spelled out, on a key without KEYFORMAT: still an attribute that asks for protocol version 5
+        k["versions"] = [1]
+        if g.chance(0.7):
+            k["format"] = None
     return k
 
 
@@ -391,7 +398,8 @@ def gen_media(g, nseg=None, feature_p=0.35, max_formats=3, with_keys=True):
 
 
 def gen_daterange(g):
-    d = {"id": g.qstring(), "class": g.qstring() if g.chance(0.5) else None,
+    # a quoted-string may be empty: an attribute that is present with an empty value is reported as such, not as absent
+    d = {"id": g.qstring(), "class": (g.qstring() if g.chance(0.9) else "") if g.chance(0.5) else None,
          "start": "2014-03-05T11:15:00Z" if g.chance(0.7) else None,
          "end": None, "dur": None, "planned": None, "cmd": None, "out": None, "in": None,
          "eon": False, "client": {}}
@@ -641,10 +649,10 @@ MT_ATOM = {"AUDIO": "audio", "VIDEO": "video", "SUBTITLES": "subtitles", "CLOSED
 def gen_xmedia(g, ty=None, group=None):
     ty = ty or g.pick(MTYPES)
     m = {"type": ty, "uri": None, "group": group or g.pick(["g1", "g2", "aud", "grp,1", "grü=n", "NONE", "g1"]),   # a group may be spelled like the NONE keyword
-         "lang": g.pick(["en", "de-CH", "zh-Hans"]) if g.chance(0.5) else None,
-         "assoc": g.pick(["fr", "es"]) if g.chance(0.2) else None, "name": g.qstring(),
+         "lang": g.pick(["en", "de-CH", "zh-Hans", ""]) if g.chance(0.5) else None,
+         "assoc": g.pick(["fr", "es", ""]) if g.chance(0.2) else None, "name": g.qstring(),
          "default": False, "autoselect": False, "forced": False, "instream": None,
-         "chars": g.pick(["public.accessibility.describes-video", "a,b"]) if g.chance(0.25) else None,
+         "chars": g.pick(["public.accessibility.describes-video", "a,b", ""]) if g.chance(0.25) else None,
          "channels": None}
     if ty == "SUBTITLES" or (ty in ("AUDIO", "VIDEO") and g.chance(0.6)):
         m["uri"] = g.uri()
@@ -755,7 +763,7 @@ def gen_master(g, consistent=True):
             a["variants"].append(v)
     seen = set()
     for _ in range(g.pick([0, 0, 1, 2, 3])):
-        d = {"id": g.pick(["com.example.title", "com.example.lyrics", "a,b", "id3"]), "lang": g.pick([None, "en", "de"]),
+        d = {"id": g.pick(["com.example.title", "com.example.lyrics", "a,b", "id3"]), "lang": g.pick([None, "en", "de", ""]),
              "data": ("value", g.qstring()) if g.chance(0.6) else ("uri", g.uri())}
         if (d["id"], d["lang"]) in seen:
             continue
